@@ -92,6 +92,11 @@ def history(rng, length):
                     op['fail'] = {'input': True}
                 elif w < .5:
                     op['fail'] = {'at': [rng.randrange(nn)], 'exc': rng.choice(['ValueError', 'Custom'])}
+                    if pool['start_method'] == 'threading' and nn >= 2 and rng.random() < .5:
+                        # a thread cannot be interrupted: another task of the failing call is still running (for seconds) when the call fails
+                        other = rng.choice([i for i in range(nn) if i != op['fail']['at'][0]])
+                        op['dur'] = {'kind': 'map', 'map': {str(other): rng.choice([3.0, 7.0])}, 'default': 0.005}
+                        op['fail']['at'] = [i for i in op['fail']['at']]
                 elif w < .65:
                     op['init'] = True
                     op['fail'] = {'init': 'all'}
@@ -126,6 +131,68 @@ def history(rng, length):
                 o['init'] = o['exit'] = True
     return {'seed': rng.randint(0, 10 ** 6), 'pool': pool, 'ops': ops, 'model_ops': mops, 'latency_bound': 5.0, 'same_func': rng.random() < .5,
             'relax_shape': any(o['op'] == 'apply_batch' for o in ops)}
+
+
+def kill_histories(rng, n):
+    """histories in which a worker is SIGKILLed while it runs a task (map-family call: the call raises RuntimeError; apply: that task
+    fails): whatever comes afterwards on the same pool behaves as on a fresh one"""
+    out = []
+    for _ in range(n):
+        nj = rng.choice([1, 2, 3])
+        pool = {'n_jobs': nj, 'start_method': 'fork'}
+        if rng.random() < .4:
+            pool['keep_alive'] = True
+        ops = []
+        for k in range(rng.randint(2, 5)):
+            if rng.random() < .4:
+                kk = rng.randint(1, 5)
+                ops.append({'op': 'apply_batch', 'tasks': [{'idx': i} for i in range(kk)], 'dur': {'kind': 'map', 'map': {}, 'default': 0.02}, 'get_timeout': 30})
+            else:
+                ops.append({'op': rng.choice(['map', 'map_unordered', 'imap', 'imap_unordered']), 'n': rng.randint(2, 8), 'chunk_size': rng.choice([1, 2]),
+                            'elem': 'scalar', 'dur': {'kind': 'hash', 'salt': rng.randint(0, 99), 'unit': 0.01}})
+        ops.append({'op': rng.choice(['stop_and_join', 'map']), **({'n': 4, 'chunk_size': 1} if False else {})})
+        if ops[-1]['op'] == 'map':
+            ops[-1].update({'n': 4, 'chunk_size': 1, 'elem': 'scalar'})
+        out.append({'seed': rng.randint(0, 10 ** 6), 'pool': pool, 'ops': ops, 'same_func': True, 'relax_shape': True,
+                    'inject': [{'kind': 'sigkill', 'victim': 'Worker-%d' % rng.randrange(nj), 'when': 'in_user', 'nth': rng.randint(1, 12)}]})
+    return out
+
+
+def kill_judge(chk, sc, o):
+    if o.get('harness_error'):
+        return
+    case = {'scenario': sc}
+    inj = o.get('injected')
+    if o.get('stuck'):
+        chk.violation('usable_after_worker_death', case, {'stuck': o['stuck'], 'injected': inj}, 'no call hangs after a worker died inside a task', input_class='kill_history_hang')
+        return
+    if not inj:
+        return
+    k = inj.get('opi', 0)
+    allow_late = True       # a death noticed only when the next map-family call has begun makes THAT call raise RuntimeError, once
+    for opi, (op, oo) in enumerate(zip(sc['ops'], o.get('ops', []))):
+        died = (oo.get('exc') or {}).get('type') == 'RuntimeError' and 'died unexpectedly' in str((oo.get('exc') or {}).get('args'))
+        if opi < k:
+            continue
+        if opi == k:
+            if op['op'] == 'apply_batch':
+                bad = [a for a in oo.get('apply', []) if a[1] != 'ok']
+                if len(bad) > 1 or any(a[2] != 'RuntimeError' for a in bad):
+                    chk.violation('usable_after_worker_death', case, {'op': opi, 'failed': bad, 'injected': inj}, 'only the task of the dead worker fails', input_class='kill_history_apply')
+            elif oo.get('outcome') == 'raise' and not died:
+                chk.violation('usable_after_worker_death', case, {'op': opi, 'raised': oo.get('exc'), 'injected': inj}, 'RuntimeError naming the dead worker', input_class='kill_history_error')
+            continue
+        if oo.get('outcome') == 'raise':
+            if died and allow_late and op['op'] in oracles.MAPS:
+                allow_late = False
+                continue
+            chk.violation('usable_after_worker_death', case, {'op': opi, 'raised': oo.get('exc'), 'injected': inj},
+                          'calls after the one in which a worker died behave as on a fresh pool', input_class='kill_history_later_call')
+            return
+        allow_late = False
+        if op['op'] == 'apply_batch' and any(a[1] != 'ok' or a[2] != oracles.value_of(a[0]) for a in oo.get('apply', [])):
+            chk.violation('usable_after_worker_death', case, {'op': opi, 'apply': oo.get('apply'), 'injected': inj}, 'later apply tasks complete correctly', input_class='kill_history_later_apply')
+            return
 
 
 def snap_tok(c):
@@ -219,6 +286,13 @@ def run(chk):
                 if not (et == 'RuntimeError' and 'another' in msg):
                     chk.violation('no_foreign_error_surfaces', {'scenario': sc}, {'op': opi, 'raised': oo.get('exc')},
                                   'a call that should succeed raises only the documented "another map is running" error', input_class='foreign_error')
+    ks = kill_histories(rng, 120 if chk.tier == 'quick' else 2000)
+    kobs = run_scenarios(chk, 'histories in which a worker is killed inside a task, then the pool is used again (DetSim)', ks, {'C06', 'C01', 'C02'},
+                         nontrivial=lambda sc, o: bool(o.get('injected')),
+                         dist=lambda sc, o: {'killed_in': sc['ops'][(o.get('injected') or {}).get('opi', 0)]['op'] if o.get('injected') else 'not reached',
+                                             'keep_alive': bool(sc['pool'].get('keep_alive'))})
+    for sc, o in zip(ks, kobs):
+        kill_judge(chk, sc, o)
     chk.assumptions += ['the parameters held by kept-alive workers are compared by presence only (their identity is checked by C10)']
 
     def search():
